@@ -32,8 +32,14 @@ STMTS = [
     ("x = f(y); call s(g(x))", {"f", "s", "g"}),
     ("x = f( &\n      g(y))", {"f", "g"}),
     ("call s(x) ! call p(x)", {"s"}),
+    ("if (.not. p(x)) goto 100\n100 continue", {"p"}),
+    ("IF (h(i) /= 0) GO TO 200\n200 continue", {"h"}),
+    ("call app%log%reset()", {"reset"}),
+    ("call app%log%emit(f(x))", {"emit", "f"}),
+    ("if (p(x)) call app%log%reset()", {"p", "reset"}),
+    ("x = app%log%level(i)", {"level"}),
 ]
-USER = {"f", "g", "h", "p", "s"}
+USER = {"f", "g", "h", "p", "s", "reset", "emit", "level"}
 
 
 def program(stmts):
@@ -44,8 +50,13 @@ def program(stmts):
     funcs += "  function h(v) result(r)\n    integer :: v, r\n    r = v\n  end function h\n"
     funcs += "  function p(v) result(r)\n    real :: v\n    logical :: r\n    r = .true.\n  end function p\n"
     funcs += "  subroutine s(v)\n    real, optional :: v\n  end subroutine s\n"
-    return ("module m\n  implicit none\ncontains\n" + funcs +
-            "  subroutine driver()\n    real :: x, y, a(10), b(3,3)\n    real, allocatable :: c(:)\n    integer :: i, j, n\n" + body +
+    types = ("  type :: logger\n  contains\n    procedure :: reset\n    procedure :: emit\n    procedure :: level\n  end type logger\n"
+             "  type :: application\n    type(logger) :: log\n  end type application\n")
+    funcs += "  subroutine reset(self)\n    class(logger) :: self\n  end subroutine reset\n"
+    funcs += "  subroutine emit(self, v)\n    class(logger) :: self\n    real :: v\n  end subroutine emit\n"
+    funcs += "  function level(self, k) result(r)\n    class(logger) :: self\n    integer :: k\n    real :: r\n    r = 0.0\n  end function level\n"
+    return ("module m\n  implicit none\n" + types + "contains\n" + funcs +
+            "  subroutine driver()\n    real :: x, y, a(10), b(3,3)\n    real, allocatable :: c(:)\n    integer :: i, j, n\n    type(application) :: app\n" + body +
             "\n  end subroutine driver\nend module m\n")
 
 
